@@ -88,7 +88,7 @@ def hash_case(spec):
                     continue       # wall-clock limit / recorded crash mechanism: decided by C01
                 viol.append({'kind': 'hashseed-run-failed', 'msg': f'{spec["stratum"]} PYTHONHASHSEED={hs}: exit {rc}: {se[-300:]}'})
             elif got != base:
-                viol.append({'kind': 'hashseed-changes-output',
+                viol.append({'kind': 'hashseed-changes-output', 'mech': 'KF-CTX' if cvmon.ctx_attributable(case, base ^ got) else None,
                              'msg': f'{spec["stratum"]} PYTHONHASHSEED={hs}: {len(got)} peptides vs {len(base)} with seed 0; '
                                     f'missing {sorted(base - got)[:4]} extra {sorted(got - base)[:4]}'})
         return {'nontrivial': bool(base), 'feature': ('hash', spec['stratum'], tuple(spec['hashseeds'])), 'violations': viol,
@@ -142,7 +142,7 @@ def run_case(spec):
             if rc != 0 or got is None:
                 viol.append({'kind': 'threads-run-failed', 'msg': f'--threads {t}: exit {rc}: {se[-400:]}'})
             elif got != base:
-                viol.append({'kind': 'threads-change-output',
+                viol.append({'kind': 'threads-change-output', 'mech': 'KF-CTX' if cvmon.ctx_attributable(case, base ^ got) else None,
                              'msg': f'--threads {t} (n_tx={n_tx}, skipped={sorted(skip)}): {len(got)} peptides vs {len(base)} with --threads 1; '
                                     f'missing {sorted(base - got)[:4]} extra {sorted(got - base)[:4]}'})
         # ---------------- hash seeds (CLI, threads 1)
@@ -154,7 +154,7 @@ def run_case(spec):
             if rc != 0 or got is None:
                 viol.append({'kind': 'hashseed-run-failed', 'msg': f'PYTHONHASHSEED={hs}: exit {rc}: {se[-300:]}'})
             elif got != base:
-                viol.append({'kind': 'hashseed-changes-output', 'msg': f'PYTHONHASHSEED={hs}: missing {sorted(base - got)[:4]} extra {sorted(got - base)[:4]}'})
+                viol.append({'kind': 'hashseed-changes-output', 'mech': 'KF-CTX' if cvmon.ctx_attributable(case, base ^ got) else None, 'msg': f'PYTHONHASHSEED={hs}: missing {sorted(base - got)[:4]} extra {sorted(got - base)[:4]}'})
         # ---------------- file layout / order / .idx (in-process)
         for k in range(spec.get('layouts', 0)):
             rs = list(recs)
@@ -184,7 +184,7 @@ def run_case(spec):
             counters['layout_runs'] = counters.get('layout_runs', 0) + 1
             got = {s for _, s in fa2}
             if got != base:
-                viol.append({'kind': 'layout-changes-output',
+                viol.append({'kind': 'layout-changes-output', 'mech': 'KF-CTX' if cvmon.ctx_attributable(case, base ^ got) else None,
                              'msg': f'layout {mode} with {len(chunks)} files: missing {sorted(base - got)[:4]} extra {sorted(got - base)[:4]}'})
         # ---------------- reference as index directory
         if spec.get('index_ref'):
@@ -196,7 +196,7 @@ def run_case(spec):
             counters['index_ref_runs'] = 1
             got = {s for _, s in fa3}
             if got != base:
-                viol.append({'kind': 'index-reference-changes-output', 'msg': f'missing {sorted(base - got)[:4]} extra {sorted(got - base)[:4]}'})
+                viol.append({'kind': 'index-reference-changes-output', 'mech': 'KF-CTX' if cvmon.ctx_attributable(case, base ^ got) else None, 'msg': f'missing {sorted(base - got)[:4]} extra {sorted(got - base)[:4]}'})
         feat = (n_tx, len(skip), tuple(spec.get('threads', [])), (n_tx - 1) in skip, 0 in skip, bool(spec.get('layouts')),
                 bool(spec.get('index_ref')), tuple(spec.get('hashseeds', [])))
         return {'nontrivial': bool(base), 'feature': feat, 'violations': viol, 'counters': counters,
